@@ -139,6 +139,28 @@ def make_vocabulary(env: Env | None):
     return voc
 
 
+def _eq(a, b):
+    """equality of clause values at run time: two NaNs are the same value (python's == says otherwise)"""
+    if isinstance(a, float) and isinstance(b, float) and math.isnan(a) and math.isnan(b):
+        return True
+    try:
+        if isinstance(a, (float, np.floating)) and isinstance(b, (float, np.floating)) and math.isnan(float(a)) and math.isnan(float(b)):
+            return True
+    except (TypeError, ValueError):
+        pass
+    return a == b
+
+
+class _EqRewriter(ast.NodeTransformer):
+    """a == b -> __eq__(a, b) for single comparisons (real-mode contracts: the symbolic side has no NaN at all)"""
+
+    def visit_Compare(self, node):
+        self.generic_visit(node)
+        if len(node.ops) == 1 and isinstance(node.ops[0], ast.Eq):
+            return ast.copy_location(ast.Call(func=ast.Name(id="__eq__", ctx=ast.Load()), args=[node.left, node.comparators[0]], keywords=[]), node)
+        return node
+
+
 class _OldRewriter(ast.NodeTransformer):
     """old(e) -> e evaluated with parameter names bound to their deep copies taken at entry"""
 
@@ -161,10 +183,14 @@ class _OldRewriter(ast.NodeTransformer):
         return node
 
 
-def eval_clause(expr: str, env: Env, extra: dict, module_globals: dict):
+def eval_clause(expr: str, env: Env, extra: dict, module_globals: dict, nan_equal=False):
     tree = ast.parse(expr.strip(), mode="eval")
-    tree = ast.fix_missing_locations(_OldRewriter(set(env.args)).visit(tree))
+    tree = _OldRewriter(set(env.args)).visit(tree)
+    if nan_equal:
+        tree = _EqRewriter().visit(tree)
+    tree = ast.fix_missing_locations(tree)
     g = dict(module_globals)
+    g["__eq__"] = _eq
     g.update(make_vocabulary(env))
     g["__old__"] = env.old_args
     loc = dict(env.args)
@@ -177,18 +203,19 @@ def monitor_call(contract, func, args: dict, module_globals: dict, call=None):
     """Run the real function under the run-time form of its contract.
     Returns (status, details): status in 'pre-false' | 'ok' | 'violation'."""
     env = Env(args)
+    ne = getattr(contract, "float_mode", "real") == "real"
     for lab, r in contract.labelled("requires"):
         try:
-            if not eval_clause(r, env, {}, module_globals):
+            if not eval_clause(r, env, {}, module_globals, ne):
                 return "pre-false", None
         except Exception:
             return "pre-false", None
     lets = {}
     for name, e in contract.lets.items():
-        lets[name] = eval_clause(e, env, lets, module_globals)
+        lets[name] = eval_clause(e, env, lets, module_globals, ne)
     expected_exc = None
     for exc, cond in contract.raises.items():
-        if eval_clause(cond, env, lets, module_globals):
+        if eval_clause(cond, env, lets, module_globals, ne):
             expected_exc = exc
     try:
         result = call(**args) if call else func(**args)
@@ -204,7 +231,7 @@ def monitor_call(contract, func, args: dict, module_globals: dict, call=None):
     bad = []
     for lab, e in contract.labelled("ensures"):
         try:
-            ok = eval_clause(e, env, dict(lets, result=result), module_globals)
+            ok = eval_clause(e, env, dict(lets, result=result), module_globals, ne)
         except NameError:
             continue           # vocabulary without a run-time side: the clause is not evaluable here (never a witness)
         except Exception as ex:  # a clause that cannot be evaluated on this result does not hold
